@@ -450,29 +450,72 @@ def _rest(ctx, prog, R, T, create):
             continue
         found = True
         ctx.ok(create, lp, "flag computed only for NaN (undetermined) entries")
-        for t, v, s, k in iter_stores(lp):
-            if isinstance(t, ast.Subscript) and self_attr_of(t) == "apply_log_t":
-                cj = conjuncts(v, True)
-                pos_ok = ratio_ok = False
-                from .common import deref_expr as _dxx
+        # the flag as a function of P = 'all four bounds > 0' and Q = 'pub / plb >= 10', over every store of the loop body
+        # with its path condition (guard clauses with ``continue`` included): exactly one store runs, and it stores P and Q
+        from .common import deref_expr as _dxx
+        from ..terms import guard_of as _gof
 
-                for c, pol in cj:
-                    c = _dxx(prog, create, c)  # the four bounds gathered in a local first
-                    cc = canon(c)
-                    if "np.all(" in cc and "np.concatenate(" in cc:
-                        inner = c
-                        names = {self_attr_of(n) for n in ast.walk(c) if isinstance(n, ast.Attribute) and self_attr_of(n)}
-                        cmpn = [n for n in ast.walk(c) if isinstance(n, ast.Compare)]
-                        strict = bool(cmpn) and cmp_normal(cmpn[0]) is not None and cmp_normal(cmpn[0])[0] == "<" and const_num(cmpn[0].comparators[0]) == 0
-                        pos_ok = {"lb", "ub", "plb", "pub"} <= names and strict
-                    else:
-                        cmpn = [n for n in ast.walk(c) if isinstance(n, ast.Compare)]
-                        if cmpn:
-                            cn = cmpn[0]
-                            l = canon(cn.left)
-                            ratio_ok = isinstance(cn.ops[0], ast.GtE) and const_num(cn.comparators[0]) == 10 and l.startswith("(self.pub[") and "/ self.plb[" in l
-                ctx.check(pos_ok, create, s, "all four bounds > 0", "the log flag does not require all four bounds (lb, ub, plb, pub) to be strictly positive", construct="log rule positivity")
-                ctx.check(ratio_ok, create, s, "pub/plb >= 10", "the log flag does not require the plausible range to span at least one decade (pub/plb >= 10)", construct="log rule decade")
+        class _No(Exception):
+            pass
+
+        def atom(e, P, Q):
+            e = _dxx(prog, create, e)
+            if isinstance(e, ast.Constant) and isinstance(e.value, bool):
+                return e.value
+            if isinstance(e, ast.UnaryOp) and isinstance(e.op, ast.Not):
+                return not atom(e.operand, P, Q)
+            if isinstance(e, ast.BoolOp):
+                vals = [atom(x, P, Q) for x in e.values]
+                return all(vals) if isinstance(e.op, ast.And) else any(vals)
+            if isinstance(e, ast.Call) and isinstance(e.func, ast.Attribute) and e.func.attr == "item" and not e.args:
+                return atom(e.func.value, P, Q)
+            if isinstance(e, ast.Call) and call_name(e) in ("bool",) and len(e.args) == 1:
+                return atom(e.args[0], P, Q)
+            cc = canon(e)
+            names = {self_attr_of(n) for n in ast.walk(e) if isinstance(n, ast.Attribute) and self_attr_of(n)}
+            cmpn = [n for n in ast.walk(e) if isinstance(n, ast.Compare)]
+            if isinstance(e, ast.Call) and call_name(e) in ("np.all", "np.any") and "np.concatenate(" in cc and len(cmpn) == 1 and {"lb", "ub", "plb", "pub"} <= names:
+                nf = cmp_normal(cmpn[0])
+                zero_right = const_num(cmpn[0].comparators[0]) == 0
+                op = type(cmpn[0].ops[0])
+                if call_name(e) == "np.all" and zero_right and op is ast.Gt:
+                    return P
+                if call_name(e) == "np.any" and zero_right and op is ast.LtE:
+                    return not P  # (bounds are finite numbers here: NaN bounds were rejected by the order check above)
+                raise _No(f"positivity test {cc[:60]}")
+            if len(cmpn) == 1 and isinstance(e, ast.Compare):
+                l, r, op = canon(e.left), e.comparators[0], type(e.ops[0])
+                if l.startswith("(self.pub[") and "/ self.plb[" in l and const_num(r) == 10:
+                    if op is ast.GtE:
+                        return Q
+                    if op is ast.Lt:
+                        return not Q
+                    raise _No(f"decade test {cc[:60]} (expected pub / plb >= 10)")
+            raise _No(f"unrecognised condition {cc[:60]}")
+
+        stores_ = [(t, v, s) for t, v, s, k in iter_stores(lp) if isinstance(t, ast.Subscript) and self_attr_of(t) == "apply_log_t"]
+        try:
+            wrong = None
+            for P in (True, False):
+                for Q in (True, False):
+                    ran = []
+                    for t, v, s in stores_:
+                        cond = all(atom(g_, P, Q) == pol_ for g_, pol_ in _gof(prog, create, s) if any(x is lp for x in prog.ancestors(g_)))
+                        if cond:
+                            ran.append(atom(v, P, Q))
+                    if len(ran) != 1 or ran[0] != (P and Q):
+                        wrong = (P, Q, ran)
+            s0 = stores_[0][2] if stores_ else lp
+            ctx.check(wrong is None and bool(stores_), create, s0, "log flag = (all four bounds > 0) and (pub / plb >= 10), as a truth table over the two conditions",
+                      f"the log flag is not 'all four bounds strictly positive and plausible range at least one decade': with positivity={wrong[0] if wrong else '?'} and decade={wrong[1] if wrong else '?'} the loop stores {wrong[2] if wrong else '?'}",
+                      construct="log rule truth table")
+        except _No as e_:
+            s0 = stores_[0][2] if stores_ else lp
+            msg_ = str(e_)
+            if "positivity" in msg_ or "unrecognised" in msg_:
+                ctx.fail(create, s0, f"the log flag does not require all four bounds (lb, ub, plb, pub) to be strictly positive ({msg_})", construct="log rule positivity")
+            else:
+                ctx.fail(create, s0, f"the log flag does not require the plausible range to span at least one decade (pub/plb >= 10) ({msg_})", construct="log rule decade")
     if not found:
         ctx.fail(create, create.node, "the per-coordinate log flag is not computed in a loop over the undetermined (NaN) entries", construct="<missing log rule loop>")
     ios = R.init_optim_state
